@@ -70,7 +70,8 @@ def add_witness(rng, gene, struct, bag, table, depth):
     novel = []
     planted = set().union(*[present_variants(gene, a, mi) for a, mi in bag]) if bag else set()
     M = sorted(considered(gene, [b[0] for b in bag]) - planted)
-    kind = rng.choice(["stray", "stray", "sparse", "double", "lost"])
+    kind = rng.choice(["stray", "stray", "sparse", "double", "lost", "twins", "twins"])
+    extra = None
     if kind == "stray" and M:
         # a considered variant with weak (but filter-passing) support: it must still be carried by one copy
         m = rng.choice(M)
@@ -122,6 +123,18 @@ def add_witness(rng, gene, struct, bag, table, depth):
             m = rng.choice([x[2], y[2]]) if not novel else y[2]
             t[p][m.op] = t[p].get(m.op, 0) + rng.choice([depth, depth // 2, depth + depth // 2])
             t[p]["_"] = max(0, t[p].get("_", 0) - rng.choice([0, depth])) + rng.choice([0, 0, depth // 2])
+    elif kind == "twins":
+        # two (or three) copies of the SAME minor allele that differ in one considered variant: with read-phase
+        # evidence the fragments of both haplotypes have to be attributed to different copies of one allele
+        cands = [(a, mi) for a, al in gene.alleles.items() if al.cn_config == "1" for mi in al.minors]
+        a, mi = rng.choice(sorted(cands))
+        others = sorted(considered(gene, [a]) - evidence.allele_variants(gene, a, mi))
+        others = [m for m in others if not any(m.pos == x.pos for x in evidence.allele_variants(gene, a, mi))]
+        if others:
+            n = rng.choice([2, 2, 3])
+            struct, bag = ["1"] * n, [(a, mi)] * n
+            extra = [{rng.choice(others)}] + [set() for _ in range(n - 1)]
+            t = evidence.plant(gene, bag, depth=depth, extra_variants=extra, sites=evidence.catalogue_sites(gene))
     elif kind == "lost":
         # a definitional variant of a fused allele lies in a region the allele lost, but is supported by reads
         for a, mi in bag:
@@ -131,7 +144,7 @@ def add_witness(rng, gene, struct, bag, table, depth):
                     t.setdefault(m.pos, {})
                     t[m.pos][m.op] = t[m.pos].get(m.op, 0) + depth
                     t[m.pos]["_"] = max(0, t[m.pos].get("_", 0) - depth)
-    return struct, bag, t, kind, novel
+    return struct, bag, t, kind, novel, extra
 
 
 def small_enough(gene, called, table):
@@ -159,6 +172,7 @@ def _cases_task(task):
         table = evidence.plant(g, bag, depth=depth, sites=sites_all)
         planted = None
         novel = []
+        extra = None
         called = [b[0] for b in bag]
         if mode == "noisy":
             m = rng.random()
@@ -175,7 +189,7 @@ def _cases_task(task):
                 called[cfg] = rng.choice(alt)
                 planted = None
         elif mode == "witness":
-            struct, bag, table, wkind, novel = add_witness(rng, g, struct, bag, table, depth)
+            struct, bag, table, wkind, novel, extra = add_witness(rng, g, struct, bag, table, depth)
             called = [b[0] for b in bag]
         else:
             planted = [present_variants(g, a, mi) for a, mi in bag]
@@ -191,10 +205,11 @@ def _cases_task(task):
             table, indels = evidence.realistic_indels(table)
             low = None
         sam, phase_recs = None, None
-        if rng.random() < 0.35 and mode in ("noisy", "witness", "planted"):
+        if (rng.random() < 0.35 or extra is not None) and mode in ("noisy", "witness", "planted"):
             # read-phase evidence of the planted haplotypes (with some wrong fragments when the table is noisy)
             psites = {m.pos for m in considered(g, called)}
-            phase_recs = evidence.plant_phases(rng, g, [present_variants(g, a, mi) for a, mi in bag], psites,
+            hv = [present_variants(g, a, mi) | (extra[k] if extra else set()) for k, (a, mi) in enumerate(bag)]
+            phase_recs = evidence.plant_phases(rng, g, hv, psites,
                                                per_copy=rng.choice([4, 10, 20]), noise=0.0 if planted is not None else 0.15)
             sam = evidence.FakeSam(phase_recs)
         cov = evidence.make_coverage(g, prof, table, low, indels, None, sam)
